@@ -552,7 +552,238 @@ fn generate(seed: u64, n_cases: usize, tier: &str) {
             out.line(gen_conn(&mut rng, fail_pct, 5, terminal_pct, hang_pct / 3));
         }
     }
+    gen_domain_families(seed, n_cases, thorough, &mut id, &mut out);
     out.flush();
+}
+
+// ------------------------------------------------------------- input-domain families (domain audit)
+//
+// Separately seeded, appended AFTER the random cases (which stay what they were). Classes the random
+// generator above never reaches: failure runs long enough to hit the cap of slowly growing policies
+// (and to stay there), scripts of >= 50 connections, back-off values beyond u32, multiplier = u8::MAX,
+// initial == max / initial * mult^k == max (+-1), connections with tens of elements, bursts of
+// non-terminal errors, payloads 0 and u64::MAX, merge inputs with equal / repeated payloads and very
+// unbalanced lengths, an input ending at every position of a long history.
+//
+// Virtual time of a run must stay below 29 * 2^30 ms (3.1e10): beyond it tokio's paused-clock timer wheel
+// (6 levels x 6 bits of ms; the harness's own far-future timeout sits in its top level) panics in
+// `Wheel::set_elapsed` — a limit of tokio's test clock, not of the code under test. The big-value
+// family therefore keeps the sum of its waits below 2.6e10 ms.
+
+const U64_MAX: u64 = u64::MAX;
+
+fn gen_payload(rng: &mut Rng) -> u64 {
+    *rng.pick(&[0u64, 0, 1, 1, 2, 3, U64_MAX, U64_MAX, 4294967296, 9223372036854775808])
+}
+
+/// a connection with `len` elements: items with error bursts, optionally a terminal error at `t_at`
+fn gen_long_conn(rng: &mut Rng, len: usize, t_at: Option<usize>, hang: bool) -> String {
+    let mut toks = vec![];
+    let mut k = 0;
+    while k < len {
+        if Some(k) == t_at {
+            toks.push(format!("T{}", gen_payload(rng)));
+            k += 1;
+        } else if rng.chance(12) {
+            // a burst of non-terminal errors, mostly with one id
+            let id = gen_payload(rng);
+            for _ in 0..rng.range(3, 9) {
+                toks.push(format!("e{}", if rng.chance(80) { id } else { gen_payload(rng) }));
+                k += 1;
+            }
+        } else if rng.chance(5) {
+            toks.push(format!("d{}", rng.pick(&[0u64, 1, 999, 60000])));
+            k += 1;
+        } else {
+            toks.push(format!("i{}", gen_payload(rng)));
+            k += 1;
+        }
+    }
+    format!("conn ok {}{}", toks.join(" "), if hang { " hang" } else { "" })
+}
+
+fn gen_domain_families(seed: u64, n_cases: usize, thorough: bool, id: &mut usize, out: &mut Out) {
+    let mut rng = Rng::new(seed ^ 0xD0_12_D0_12_5EED);
+    let n_extra = if thorough { n_cases / 10 } else { std::cmp::max(48, n_cases / 5) };
+    for k in 0..n_extra {
+        *id += 1;
+        match k % 6 {
+            0 => {
+                // long failure runs: cap reached late (and held), then a success (reset), then again
+                out.case(format!("dfail{id}"));
+                out.line(*rng.pick(&[
+                    "policy 125 2 60000",
+                    "policy 1 2 60000",
+                    "policy 1 255 1000000",
+                    "policy 7 3 100000",
+                    "policy 500 2 500",
+                    "policy 0 5 100",
+                    "policy 3 1 1000",
+                    "policy 1 2 100000000",
+                    "policy 1000 10 999999",
+                ]));
+                out.line(gen_mode(&mut rng));
+                out.line(gen_conn(&mut rng, 0, 3, 10, 0));
+                let run = rng.range(12, if thorough { 70 } else { 40 });
+                for _ in 0..run {
+                    out.line("conn fail");
+                }
+                out.line(gen_conn(&mut rng, 0, 3, 10, 0));
+                for _ in 0..rng.range(0, 12) {
+                    out.line(gen_conn(&mut rng, 80, 2, 10, 0));
+                }
+                if rng.chance(50) {
+                    out.line("conn ok i1 hang");
+                }
+            }
+            1 => {
+                // long scripts: >= 50 connections
+                out.case(format!("dlong{id}"));
+                out.line(gen_policy(&mut rng));
+                out.line(gen_mode(&mut rng));
+                let n_conn = rng.range(50, if thorough { 90 } else { 60 });
+                let fail_pct = *rng.pick(&[20u64, 50, 75]);
+                out.line(gen_conn(&mut rng, 0, 3, 20, 0));
+                for _ in 1..n_conn {
+                    out.line(gen_conn(&mut rng, fail_pct, 3, 20, 0));
+                }
+            }
+            2 => {
+                // back-off values beyond u32 / multiplier u8::MAX; at most 3 failures in all (virtual-time bound)
+                out.case(format!("dbig{id}"));
+                let initial = *rng.pick(&[4294967295u64, 4294967296, 4294967297, 5000000000, 1000000]);
+                let mult = *rng.pick(&[1u64, 2, 255]);
+                let max = *rng.pick(&[4294967296u64, 4294967297, 5000000000, 8589934592]);
+                out.line(format!("policy {initial} {mult} {max}"));
+                out.line(gen_mode(&mut rng));
+                let mut fails = 0;
+                out.line(gen_conn(&mut rng, 0, 3, 10, 0));
+                for _ in 0..rng.range(2, 7) {
+                    if fails < 3 && rng.chance(60) {
+                        fails += 1;
+                        out.line("conn fail");
+                    } else {
+                        out.line(gen_conn(&mut rng, 0, 3, 20, 0));
+                    }
+                }
+            }
+            3 => {
+                // boundary-exact policies: initial == max, initial * mult^k == max, one off either side
+                out.case(format!("dedge{id}"));
+                out.line(*rng.pick(&[
+                    "policy 500 2 500",
+                    "policy 1 1 1",
+                    "policy 60000 2 60000",
+                    "policy 1 0 1",
+                    "policy 125 4 500",
+                    "policy 125 2 1000",
+                    "policy 125 2 999",
+                    "policy 125 2 1001",
+                    "policy 100 3 899",
+                    "policy 100 3 900",
+                    "policy 100 3 901",
+                    "policy 1 255 65025",
+                    "policy 1 255 65024",
+                    "policy 1 255 65026",
+                    "policy 2 255 130050",
+                    "policy 501 2 500",
+                    "policy 499 2 500",
+                    "policy 0 255 0",
+                    "policy 1 2 0",
+                ]));
+                out.line(gen_mode(&mut rng));
+                out.line(gen_conn(&mut rng, 0, 2, 10, 0));
+                for _ in 0..rng.range(1, 3) {
+                    for _ in 0..rng.range(2, 7) {
+                        out.line("conn fail");
+                    }
+                    out.line(gen_conn(&mut rng, 0, 2, 10, 0));
+                }
+            }
+            4 => {
+                // long connections, error bursts, payload extremes, large forward capacities
+                out.case(format!("dconn{id}"));
+                out.line(gen_policy(&mut rng));
+                out.line(match rng.below(4) {
+                    0 => "mode events".to_string(),
+                    1 => "mode handler".to_string(),
+                    _ => format!("mode forward {}", rng.pick(&[10u64, 25, 50, 100, 1000])),
+                });
+                for _ in 0..rng.range(1, 4) {
+                    let len = rng.range(20, if thorough { 120 } else { 60 }) as usize;
+                    let t_at = match rng.below(5) {
+                        0 => Some(0),
+                        1 => Some(len - 1),
+                        2 => Some(rng.below(len as u64) as usize),
+                        _ => None,
+                    };
+                    let hang = rng.chance(15);
+                    out.line(gen_long_conn(&mut rng, len, t_at, hang));
+                    if rng.chance(50) {
+                        out.line("conn fail");
+                    }
+                }
+                out.line("conn ok i7");
+            }
+            _ => {
+                // merge: few distinct payloads (equal on both sides, repeated within a side, 0, u64::MAX), very
+                // unbalanced lengths, one side (or both) never sending, an input ending at a chosen position of a
+                // long history, sends after the end
+                out.case(format!("dmerge{id}"));
+                let (nl, nr) = match rng.below(6) {
+                    0 => (rng.range(40, 80), 0),
+                    1 => (0, rng.range(40, 80)),
+                    2 => (rng.range(40, 80), 1),
+                    3 => (1, rng.range(40, 80)),
+                    4 => (0, 0),
+                    _ => (rng.range(5, 30), rng.range(5, 30)),
+                };
+                let total = (nl + nr) as u64;
+                let end_at = rng.below(total + 2);
+                let end_op = *rng.pick(&["lend", "rend"]);
+                let poll_pct = *rng.pick(&[0u64, 20, 50, 100]);
+                let pool: &[u64] = if rng.chance(50) { &[1, 1, 1, 2] } else { &[0, 1, U64_MAX, U64_MAX] };
+                let (mut l, mut r) = (nl, nr);
+                let mut sent = 0u64;
+                loop {
+                    if sent == end_at {
+                        out.line(end_op);
+                    }
+                    if l + r == 0 {
+                        break;
+                    }
+                    let left = if l == 0 {
+                        false
+                    } else if r == 0 {
+                        true
+                    } else {
+                        rng.below((l + r) as u64) < l as u64
+                    };
+                    if left {
+                        l -= 1;
+                    } else {
+                        r -= 1;
+                    }
+                    out.line(format!("{} {}", if left { "l" } else { "r" }, rng.pick(pool)));
+                    sent += 1;
+                    if rng.chance(poll_pct) {
+                        out.line(if rng.chance(10) { "drain" } else { "poll" });
+                    }
+                }
+                if end_at > total {
+                    out.line(end_op);
+                }
+                out.line("drain");
+                if rng.chance(50) {
+                    out.line(if end_op == "lend" { "rend" } else { "lend" });
+                    out.line("drain");
+                }
+                out.line("l 1");
+                out.line("r 1");
+                out.line("poll");
+            }
+        }
+    }
 }
 
 fn main() {
